@@ -111,12 +111,12 @@ fn arb_rule() -> BoxedStrategy<Rule> {
 
 fn arb_bal() -> BoxedStrategy<Bal> {
     prop_oneof![
-        9 => Just(Bal::Exact),
+        11 => Just(Bal::Exact),
         3 => Just(Bal::Minus1),
         3 => Just(Bal::Plus1),
-        3 => select(vec![-2i64, 2, -4_999, 5_000, -5_000, 10_000, -1_000_000, 1_000_000, 1_000_000_000_000, -1_000_000_000_000])
+        2 => select(vec![-2i64, 2, -4_999, 5_000, -5_000, 10_000, -1_000_000, 1_000_000, 1_000_000_000_000, -1_000_000_000_000])
             .prop_map(Bal::Off),
-        2 => Just(Bal::Free),
+        1 => Just(Bal::Free),
     ]
     .boxed()
 }
@@ -166,13 +166,8 @@ fn opt_vec<T: std::fmt::Debug + Clone + 'static>(p: f64, item: BoxedStrategy<T>,
     (prop::bool::weighted(p), pvec(item, 0..=max)).prop_map(|(on, v)| if on { v } else { vec![] }).boxed()
 }
 
-pub fn arb_case(max_n: usize, prove: bool) -> BoxedStrategy<Case> {
-    let engine = if prove {
-        Just(Engine::Prove).boxed()
-    } else {
-        prop_oneof![1 => Just(Engine::Build), 1 => Just(Engine::Pczt)].boxed()
-    };
-    (engine, arb_where())
+pub fn arb_case(max_n: usize, engine: Engine) -> BoxedStrategy<Case> {
+    (Just(engine), arb_where())
         .prop_flat_map(move |(engine, (layout, height))| {
             let br = ref_branch(&LAYOUTS[layout as usize], height);
             let orchard_engine = engine != Engine::Build;
@@ -235,7 +230,11 @@ pub fn arb_case(max_n: usize, prove: bool) -> BoxedStrategy<Case> {
             )
         })
         .prop_map(|((engine, layout, height, content), anchors, pads, propose, rule, bal, slot, key_fault, key_perm, seed)| {
-            let (t_in, t_out, s_in, s_out, o_in, o_out, i_in, i_out) = content;
+            let (mut t_in, t_out, s_in, s_out, o_in, o_out, i_in, i_out) = content;
+            // a request without any input can only be balanced with a zero fee: mostly give it one
+            if t_in.is_empty() && s_in.is_empty() && o_in.is_empty() && i_in.is_empty() && seed[0] % 8 != 0 {
+                t_in.push(TIn { key: seed[1] % 6, value: 100_000 + seed[2] as u64, wrong_script: false, via_info: seed[3] & 1 == 1 });
+            }
             Case {
                 engine,
                 layout,
